@@ -453,6 +453,7 @@ pub fn c16(run: &mut Run) {
                     Outcome::Infra(m) => run.health_fail(m),
                 }
             }
+            run.mark_replay_ran();
             println!("REPLAY property=C16 check=c16_compiled done");
         }
         return;
